@@ -35,3 +35,14 @@ CASES = [
     t("overdamped formula factored differently", S,
       "            cfce = (2.0*lamb/ctime)*omega/(omega**2 + (1.0/ctime)**2)", "            cfce = 2.0*lamb*omega/(ctime*(omega**2 + (1.0/ctime)**2))"),
 ]
+
+CASES += [
+    m("requested temperature only fills in a missing one", "C06-R4", S,
+      "            if temperature is not None:\n                prms[\"T\"] = temperature\n",
+      "            if (temperature is not None) and (\"T\" not in prms):\n                prms[\"T\"] = temperature\n"),
+    m("correlation function built at the stored temperature", "C06-R4", S,
+      "            T = newdict[\"T\"]\n", "            T = pdict[\"T\"]\n"),
+    t("requested temperature selected by a conditional expression", S,
+      "            if k == 0:\n                temp = prms[\"T\"]\n            elif temp != prms[\"T\"]:",
+      "            if k == 0:\n                temp = temperature if temperature is not None else prms[\"T\"]\n            elif temp != prms[\"T\"]:"),
+]
